@@ -134,6 +134,16 @@ def inprocess_case(case):
         for i in range(case["repeat"]):
             again = must("repeated-dumps", dump)
             check(again == first, "bytes-depend-on-dump-count", lambda: "%s: dump #%d differs: %s" % (fmt, i + 1, first_difference(first, again)))
+    if fmt == "treeinfo" and desc["variants"]:
+        # the optional main_variant argument belongs to ONE dump: dumps with other arguments in between leave no trace
+        plain = must("dumps", tim.dump_text, tim.build_ti(desc, 0), None)
+        for uid in sorted(n["uid"] for n in desc["variants"]):
+            must("dump-with-main-variant", tim.dump_text, obj, uid)
+            after = must("dumps-after-main-variant-dump", tim.dump_text, obj, None)
+            check(after == plain, "bytes-depend-on-earlier-dump", lambda: "treeinfo: dump without main_variant differs after a dump with main_variant=%r: %s" % (
+                uid, first_difference(plain, after)))
+        again = must("repeated-dumps", dump)
+        check(again == first, "bytes-depend-on-earlier-dump", lambda: "treeinfo: dump differs after dumps with other main variants: %s" % first_difference(first, again))
     if fmt in ("modules", "extra_files"):
         # caller-ordered lists are content: a module's RPM list / the entries of a cell come out in the order they were given
         model = {}
